@@ -1,6 +1,6 @@
 /* C04 progress (extension M) harness = harness/c/c04_kernel.c (included unchanged) with three hooks at its end of run:
- *   - before the log is cut, wait (bounded) until every descriptor handed out by the two qthread pools has been handed
- *     back (events A / F of the log): "freed" becomes a schedule-independent observable;
+ *   - before the log is cut, wait (bounded; the main task yields while it waits) until every descriptor handed out by the
+ *     two qthread pools has been handed back (events A / F of the log): "freed" becomes a schedule-independent observable;
  *   - then print one line per shepherd with the private fields of its ready queue, read white-box under the queue lock:
  *       "Z <shep> <qlength> <qlength_stealable> <nodes found walking head->next> <head==NULL&&tail==NULL>"
  *     and "Y <descriptors allocated> <descriptors freed> <waited_ms>";
@@ -53,7 +53,17 @@ static int c04p_usleep(unsigned us)
         clock_gettime(CLOCK_MONOTONIC, &t1);
         c04p_waited_ms = (t1.tv_sec - t0.tv_sec) * 1000 + (t1.tv_nsec - t0.tv_nsec) / 1000000;
         if (c04p_allocs == c04p_frees || c04p_waited_ms > 12000) break;
-        usleep(500);
+        /* the main task gives worker 0.0 back while it waits: a team leader whose body has returned still has to pass
+         * qt_internal_teamfinish, and it may be queued (pinned) on shepherd 0 - the completion count of c04_kernel.c is
+         * taken at the end of the BODY.  The yield is announced like every yield of a scripted body. */
+        {
+            uint64_t sh, pw;
+            LOG('p', 0, 'y', 0, 998, 0, 0);
+            qthread_yield();
+            where(&sh, &pw);
+            LOG('r', 0, sh, pw, 998, 0, 0);
+        }
+        usleep(200);
     }
     return usleep(us);
 }
